@@ -145,6 +145,48 @@ def switch_step(n: int, k0: int, k1: int, k2: int, w0: int, w1: int, w2: int, ha
     return _cmp(got, exp, glog, rlog, ks=ks, ws=ws)
 
 
+# ---- Switch over REAL key specs in Match mode: the first case whose key passes, in the order given ---------------
+from collections import OrderedDict as _OD
+
+SW_KEYS = [int, bool, object, dict, _OD, str, 1, 'a', float, (int, str)]
+SW_TARGETS = [True, 1, 0, 'a', 'b', 1.0]
+
+
+def _key_passes(key, t):
+    if isinstance(key, type):
+        return isinstance(t, key)
+    if isinstance(key, tuple):                      # a tuple pattern: only an equal-length tuple target conforms
+        return False
+    return t == key
+
+
+def switch_real_keys(i: int, j: int, k: int, tk: int, has_default: bool) -> bool:
+    start()
+    i, j, k = concretize(i, 0, len(SW_KEYS) - 1), concretize(j, 0, len(SW_KEYS) - 1), concretize(k, 0, len(SW_KEYS) - 1)
+    tk = concretize(tk, 0, len(SW_TARGETS) + 1)
+    if OUT in (i, j, k, tk):
+        return True
+    t = SW_TARGETS[tk] if tk < len(SW_TARGETS) else ({} if tk == len(SW_TARGETS) else _OD())
+    keys = [SW_KEYS[i], SW_KEYS[j], SW_KEYS[k]]
+    cases = [(key, Val(('case', n))) for n, key in enumerate(keys)]
+    kw = {'default': Val(D)} if has_default else {}
+    spec = Match(Switch(cases, **kw))
+    exp = None
+    for n, key in enumerate(keys):
+        if _key_passes(key, t):
+            exp = ('case', n)
+            break
+    got = run(lambda: glom(t, spec, glom_debug=True))
+    reach('switch_real')
+    if exp is None:
+        if has_default:
+            return (got.kind == 'ok' and got.value == D) or fail(why='no case passes: default', got=got, keys=keys, t=t)
+        return (got.kind == 'err' and isinstance(got.exc, MatchError)) or fail(why='no case passes: MatchError', got=got, keys=keys, t=t)
+    if exp[1] > 0:
+        reach('switch_later_case')
+    return (got.kind == 'ok' and got.value == exp) or fail(why='not the FIRST case whose key passes', got=got, exp=exp, keys=keys, t=t)
+
+
 OPS = [operator.eq, operator.ne, operator.gt, operator.lt, operator.ge, operator.le]
 
 
@@ -396,6 +438,11 @@ def obligations(tier):
                 obs.append(Ob(switch_step, fixed=f2, pre=pre3, name='switch_step_n3_k%d' % k0))
         else:
             obs.append(Ob(switch_step, fixed=fx, pre=pre, name='switch_step_n%d' % n))
+    for i in range(len(SW_KEYS)):
+        obs.append(Ob(switch_real_keys, fixed={'i': i}, pre='0 <= j < %d and 0 <= k < %d and 0 <= tk <= %d' % (len(SW_KEYS), len(SW_KEYS), len(SW_TARGETS) + 1),
+                      name='switch_real_keys_%d' % i, timeout=240))
+    obs.append(Ob(switch_real_keys, fixed={'i': 0}, pre='0 <= j < %d and 0 <= k < %d and 0 <= tk <= %d' % (len(SW_KEYS), len(SW_KEYS), len(SW_TARGETS) + 1),
+                  twin='switch_later_case', name='switch_real_keys_0'))
     for op in range(6):
         obs.append(Ob(m_atom, fixed={'op': op}, pre='0 <= form <= 5', name='m_atom_op%d' % op))
     obs.append(Ob(m_bare, pre='0 <= which <= 3', name='m_bare'))
